@@ -769,7 +769,11 @@ fn op_scope(ctx: &mut Ctx, sc: &mut dyn ScopeOps, orig: Option<&dyn ScopeOps>, d
         let cp_floor0 = ctx.cp_floor;
         ctx.cp_floor = ctx.next_key;
         ctx.out.push_str("# replay-first\n");
+        ctx.shape.clear();
         op_scope_once(ctx, sc, orig, depth);
+        // the generator looks at the state in a few places (an unallocated arena, the room left): the oracle only
+        // applies when both runs really are the same workload — same operations with the same sizes
+        let shape_first = std::mem::take(&mut ctx.shape);
         let clean = BASE.with(|b| b.borrow().total_failures) == fails0;
         if clean && ops0 > 0 {
             let calls0 = BASE.with(|b| b.borrow().alloc_calls);
@@ -781,9 +785,11 @@ fn op_scope(ctx: &mut Ctx, sc: &mut dyn ScopeOps, orig: Option<&dyn ScopeOps>, d
             ctx.cp_floor = ctx.next_key;
             ctx.out.push_str("# replay-second\n");
             op_scope_once(ctx, sc, orig, depth);
+            let same = ctx.shape == shape_first;
             ctx.out.push_str("# replay-end\n");
             let calls1 = BASE.with(|b| b.borrow().alloc_calls);
-            if calls1 != calls0 {
+            ctx.count(if same { "replay:same-workload" } else { "replay:generator-diverged(not judged)" });
+            if same && calls1 != calls0 {
                 ctx.oracle("C03", format!("REPLAY: repeating the same workload in a new scope made {} new request(s) to the base allocator", calls1 - calls0));
             }
             ctx.rng = rng1;
